@@ -160,10 +160,10 @@ def extract_vars(statement):
     elif isinstance(statement, str):
         for name, evaluator in get_evaluators().items():
             for var_ref in evaluator.extract_vars(statement):
+                # A reference may hold other references, i.e. ctx(hosts)[ctx(idx)].
                 for regex_var_extract in evaluator.get_var_extraction_regexes():
-                    result = re.search(regex_var_extract, var_ref)
-                    var = result.group(1) if result else ""
-                    variables.append((evaluator.get_type(), statement, var))
+                    for result in re.finditer(regex_var_extract, var_ref):
+                        variables.append((evaluator.get_type(), statement, result.group(1)))
 
     variables = [v for v in variables if v[2] != ""]
 
